@@ -2,13 +2,16 @@
 //!   e57harness gen  <engine> <seed> <quick|thorough> <out-dir>
 //!   e57harness exec <engine> <case-file>          (one implementation answer per case line)
 mod util;
+mod dev;
 mod eng_bits;
+mod eng_pages;
 
 use util::Sink;
 
 fn exec_line(engine: &str, line: &str) -> String {
     match engine {
         "bits" => eng_bits::exec(line),
+        "pages" => eng_pages::exec(line),
         _ => "BADENGINE".into(),
     }
 }
@@ -29,6 +32,7 @@ fn main() {
             let mut sink = Sink::new(engine);
             match engine {
                 "bits" => eng_bits::generate(&mut sink, seed, thorough),
+                "pages" => eng_pages::generate(&mut sink, seed, thorough),
                 _ => {
                     eprintln!("unknown engine {engine}");
                     std::process::exit(2);
